@@ -99,7 +99,8 @@ if a.checks:
                 # the evidence file committed must come from a run on the unchanged tree
                 open(ev, "w").write(keep)
             res["checks"][c] = {"exit": rc, "caught": rc == 1 and "VIOLATION" in out,
-                                "lines": [l for l in out.splitlines() if l.startswith(("VIOLATION", "OK", "KNOWN"))][:4],
+                                "lines": ([l for l in out.splitlines() if l.startswith("VIOLATION")][:3] +
+                                          [l for l in out.splitlines() if l.startswith(("OK", "KNOWN"))][:3]),
                                 "wall_s": round(time.time() - t0, 1)}
     finally:
         env.pop("VERIF_REPO", None)
